@@ -734,3 +734,51 @@ def an_iolog(sub, payload, unit, tag, res):
               function=fn, kind="post", sliced=True)
     sub.prove(f"{pid}/front-to-back", hyp + [iv + 1 < as_int_term(n)],
               as_int_term(cpos) + as_int_term(cgot) == 720 + R * RPC * (iv + 1), function=fn, kind="post", sliced=True)
+
+
+# ---------------------------------------------------------------------------------------------------
+# C01: where the samples are (byte ranges, shape, type code) — stated over the independent anchor positions
+# ---------------------------------------------------------------------------------------------------
+def an_pixels(sub, payload, unit, tag, res):
+    if res.outcome != "return":
+        return
+    from props.imageunit import N, R, header_int, header_text
+    from pyvc.dump import definitional_equalities
+
+    prop = payload["prop"]
+    fn = _fn(unit)
+    dump = res.extra["dump"]
+    tc = _checker(sub, (payload.get("table_of") or {}).get(unit, unit), prop)
+    am = (dump.get("/array_metadata") or {}).get("dict")
+    pid = f"{prop}/{unit}/array-metadata"
+    sub.decided(f"{pid}/present", am is not None and set(am) == {"type_code", "shape", "dtype", "byte_ranges"}, function=fn,
+                detail={"keys": sorted(am) if am else None})
+    if not am or "elem" not in am["byte_ranges"]:
+        return
+    P = 544 if unit.startswith("image10") else 192     # prefix length of record type 10 / 11 (CEOS constants)
+    tcode, dt = ("C*8", "complex64") if unit.startswith("image10") else ("IU2", "uint16")
+    K0 = z3.Int("K0")
+    decls = tc.decls(res.path.pc)
+    base = path_hyps(res.path) + definitional_equalities(res.path) + [K0 >= 0, K0 < N]
+    br = am["byte_ranges"]
+    start, stop = (tables.parse_term(e["t"], decls) for e in br["elem"]["tuple"])
+    ln = tables.parse_term(br["len"], decls)
+    sub.prove(f"{pid}/one-byte-range-per-line", base, ln == N, function=fn, kind="post", sliced=True)
+    sub.prove(f"{pid}/row-k-starts-at-720+k*R+prefix", base, start == 720 + K0 * R + P, function=fn, kind="post", sliced=True,
+              detail={"got": str(z3.simplify(start))[:200], "prefix": P})
+    sub.prove(f"{pid}/row-k-stops-at-720+(k+1)*R", base, stop == 720 + (K0 + 1) * R, function=fn, kind="post", sliced=True,
+              detail={"got": str(z3.simplify(stop))[:200]})
+    shape = am["shape"].get("tuple", [])
+    lines, pixels = header_int(236, 8), header_int(248, 8)   # descriptor bytes 237-244 / 249-256
+    ok = len(shape) == 2 and all("t" in s for s in shape)
+    sub.decided(f"{pid}/shape-is-a-pair", ok, function=fn)
+    if ok:
+        sub.prove(f"{pid}/shape=(declared-lines,declared-pixels)", base,
+                  z3.And(tables.parse_term(shape[0]["t"], decls) == lines, tables.parse_term(shape[1]["t"], decls) == pixels),
+                  function=fn, kind="post", sliced=True)
+    tcd = am["type_code"]
+    if "t" in tcd:
+        sub.prove(f"{pid}/type-code=descriptor-bytes-429-432", base, tables.parse_term(tcd["t"], decls) == header_text(428, 4),
+                  function=fn, kind="post", sliced=True)
+    sub.decided(f"{pid}/dtype-of-the-sample-type", am["dtype"].get("py") == repr(dt), function=fn,
+                detail={"dtype": am["dtype"], "type_code": tcode})
